@@ -341,7 +341,7 @@ def obligations(tier, seed):
                 if quick and perm and si > 1:
                     continue
                 obs.append(Obligation("C01/write/K%d/%s/%s" % (K, "-".join(map(str, sh)), "rows-reversed" if perm else "rows-in-order"), partial(ob_write, K, sh, perm),
-                                      bound="OsuMap.write of an in-memory chart, " + B % ((K,) + sh) + "; three write/read generations", max_paths=6000, timeout_s=300))
+                                      bound="OsuMap.write of an in-memory chart, " + B % ((K,) + sh) + "; three write/read generations", max_paths=6000 if quick else 40000, timeout_s=300 if quick else 2400))
     for K in range(1, 19):
         obs.append(Obligation("C01/colmap/K%d" % K, partial(ob_colmap, K), bound="x_axis_to_column / column_to_x_axis for %d keys, x symbolic integer in [0,512), column symbolic in [0,%d)" % (K, K),
                               max_paths=3000, timeout_s=200))
